@@ -704,7 +704,7 @@ func getTextContentRecursive(n *html.Node, result *strings.Builder) {
 	// Add space after certain block elements
 	if n.Type == html.ElementNode {
 		switch n.Data {
-		case "p", "div", "li", "h1", "h2", "h3", "h4", "h5", "h6", "tr":
+		case "p", "div", "li", "h1", "h2", "h3", "h4", "h5", "h6", "tr", "td", "th":
 			result.WriteString(" ")
 		}
 	}
@@ -717,10 +717,15 @@ func getDirectTextContent(n *html.Node) string {
 		if c.Type == html.TextNode {
 			result.WriteString(c.Data)
 		} else if c.Type == html.ElementNode {
-			// Include inline elements, skip block elements
+			// Include inline elements and the item's own block content
 			switch c.Data {
-			case "ul", "ol", "div", "p", "table", "blockquote":
-				// Skip these - they're block elements
+			case "ul", "ol":
+				// Skip nested lists - their items are emitted separately
+			case "div", "p", "table", "blockquote":
+				// Block children such as <li><p>text</p></li> carry the item's text
+				result.WriteString(" ")
+				result.WriteString(getTextContent(c))
+				result.WriteString(" ")
 			default:
 				result.WriteString(getTextContent(c))
 			}
